@@ -1,6 +1,7 @@
 import os
 from warnings import warn
 from collections.abc import Mapping
+from collections import defaultdict
 from .. import yaml_io
 import numpy as np
 
@@ -8,6 +9,11 @@ from .. Error import GroupMissingDataError
 from . Group import Group, Descriptor
 from . Scheme import GroupAdditivityScheme
 from . DataDir import get_data_dir
+
+
+class MolDescriptors(defaultdict):
+    """Descriptor counts of one chemical structure (`name`)."""
+    name = None
 
 
 class GroupLibrary(Mapping):
@@ -109,7 +115,12 @@ class GroupLibrary(Mapping):
             their number of occurence in the structure.
         """
         self.name = mol
-        return self.scheme.GetDescriptors(mol)
+        # The returned mapping remembers its molecule, so that an estimate
+        # made from it later does not depend on what else this library
+        # decomposed in between.
+        descriptors = MolDescriptors(int, self.scheme.GetDescriptors(mol))
+        descriptors.name = mol
+        return descriptors
 
     def Estimate(self, groups, property_set_name):
         """Estimate set of properties for chemical.
